@@ -61,6 +61,7 @@ type ItemSpec struct {
 	Flt   float64   `json:"f,omitempty"`
 	Code  string    `json:"code,omitempty"`
 	F     *Fields   `json:"fields,omitempty"`
+	Drift bool      `json:"fields_before_mutation_are_instead_set_AFTER_the_cell_was_made_and_without_Update,omitempty"` // the cell is made in the final state; afterwards the item changes to Pre and nobody asks the cell to update: it goes on showing the final text
 	Pre   *Fields   `json:"fields_before_mutation,omitempty"` // typed by-pointer items: created with these, mutated to F (then Update) before the judged render
 	Ptr   bool      `json:"ptr,omitempty"`
 	Inner *ItemSpec `json:"inner,omitempty"`
@@ -78,10 +79,18 @@ func (m *Made) Spec() *ItemSpec { return m.spec }
 
 // NeedsFinalize says whether the item was created in its pre-mutation state.
 func (m *Made) NeedsFinalize() bool {
+	if m.spec != nil && m.spec.Drift {
+		return false
+	}
 	if m.spec != nil && m.spec.K == "cellptr" && m.spec.F != nil && m.spec.Inner != nil && m.spec.Inner.K == "typed" {
 		return m.spec.Inner.Pre != nil && m.spec.Inner.Ptr && m.Mutate != nil
 	}
 	return m.spec != nil && m.spec.K == "typed" && m.spec.Pre != nil && m.spec.Ptr && m.Mutate != nil
+}
+
+// Drifts says whether the item changes after its cell was made, without the cell being asked to update.
+func (m *Made) Drifts() bool {
+	return m.spec != nil && m.spec.Drift && m.spec.K == "typed" && m.spec.Pre != nil && m.Mutate != nil
 }
 
 // StrItem is the plain string item.
@@ -240,7 +249,7 @@ func (s *ItemSpec) Make() Made {
 		m.Item = (*NilSafe)(nil)
 	case "typed":
 		f := *s.F
-		if s.Pre != nil && s.Ptr {
+		if s.Pre != nil && s.Ptr && !s.Drift {
 			f = *s.Pre
 		}
 		m.Item, m.Mutate = makeTyped(s.Code, f, s.Ptr)
@@ -257,6 +266,12 @@ func (s *ItemSpec) Make() Made {
 	case "cell":
 		in := s.Inner.Make()
 		m.Item = tabular.NewCell(in.Item)
+	case "twinnameNum":
+		m.Item = twinNameNum(s.Num)
+	case "twinnameStr":
+		m.Item = twinNameStr(string(s.Str))
+	case "twinnameBool":
+		m.Item = twinNameBool(s.Num != 0)
 	case "cellcycle1":
 		// a cell whose item is a pointer to itself (the spreadsheet's circular reference): it shows what it read last
 		a := tabular.NewCell(string(s.Str))
@@ -361,7 +376,7 @@ func (s *ItemSpec) TextWith(f *Fields) string {
 		return s.Inner.Text()
 	case "cellptr":
 		return s.Inner.TextWith(f) // the cell pointed at follows its item (see Make)
-	case "anonG", "anonPS", "anonSE", "tplhtml", "tpljs", "tplurl", "tplattr", "jsonnumber", "lookS", "lookSB", "lookW", "lookH", "cellcycle1", "cellcycle2":
+	case "anonG", "anonPS", "anonSE", "tplhtml", "tpljs", "tplurl", "tplattr", "jsonnumber", "lookS", "lookSB", "lookW", "lookH", "cellcycle1", "cellcycle2", "twinnameStr":
 		return string(s.Str) // promoted GoString / String (String before Error); named string types read as their value
 	case "aggslice", "aggstringer", "aggarrmap":
 		// by-value aggregates which reach mutable state through an interior reference
@@ -476,6 +491,11 @@ func (r *R) WrapText(s string) ItemSpec {
 			}
 			pre := Fields{S: other, G: other, E: other, HV: f.HV, WV: f.WV}
 			it.Pre = &pre
+			if r.Chance(1, 4) {
+				// the other way round: the cell is made from the final state, and the item moves on afterwards
+				it.Drift = true
+				return it
+			}
 			if r.Chance(1, 5) {
 				// the cell holds a POINTER TO A CELL of such an item: when the item changes, the cell pointed at is
 				// brought up to date; the cell holding the pointer shows the new text once it is itself asked to update
@@ -497,7 +517,7 @@ func (r *R) WrapText(s string) ItemSpec {
 		// other carriers whose documented text form is s: named string types of other packages (html/template's
 		// "trusted" strings, read as their value like any named string), a named string of this package, unnamed
 		// struct types with a promoted GoString or String
-		return ItemSpec{K: Pick(r, []string{"tplhtml", "tplhtml", "tpljs", "tplurl", "tplattr", "mystr", "anonG", "anonPS", "anonSE", "lookS", "lookSB", "lookW", "lookH"}), Str: Q(s)}
+		return ItemSpec{K: Pick(r, []string{"tplhtml", "tplhtml", "tpljs", "tplurl", "tplattr", "mystr", "anonG", "anonPS", "anonSE", "lookS", "lookSB", "lookW", "lookH", "twinnameStr", "twinnameStr"}), Str: Q(s)}
 	default:
 		return StrItem(s)
 	}
@@ -543,7 +563,7 @@ func (r *R) AnyItem(fam Fam, maxAtoms, depth int) ItemSpec {
 	case 4:
 		return ItemSpec{K: "bool", Num: int64(r.Intn(2))}
 	case 5:
-		return ItemSpec{K: Pick(r, []string{"mystr", "bytes", "err", "fmtstr", "aggslice", "aggstringer", "aggarrmap", "anonG", "anonPS", "anonSE", "tplhtml", "tpljs", "tplurl", "tplattr", "tplhtml", "jsonnumber", "ifacestruct", "ifacearr", "lookS", "lookSB", "lookW", "lookH", "lookNone", "cellcycle1", "cellcycle2"}), Str: Q(r.Str(fam, maxAtoms))}
+		return ItemSpec{K: Pick(r, []string{"mystr", "bytes", "err", "fmtstr", "aggslice", "aggstringer", "aggarrmap", "anonG", "anonPS", "anonSE", "tplhtml", "tpljs", "tplurl", "tplattr", "tplhtml", "jsonnumber", "ifacestruct", "ifacearr", "lookS", "lookSB", "lookW", "lookH", "lookNone", "cellcycle1", "cellcycle2", "twinnameStr", "twinnameNum", "twinnameBool"}), Str: Q(r.Str(fam, maxAtoms)), Num: int64(r.Intn(3))}
 	case 6:
 		return ItemSpec{K: Pick(r, []string{"slice", "map", "struct", "structptr", "complex", "complex64", "fmtfloat"}), Str: Q(r.Str(FAscii, 2)), Num: int64(r.Intn(9)), Flt: 1.5}
 	case 7:
@@ -684,3 +704,22 @@ func (l LookNone) String(verbose bool) string { return "<wrong>" }
 func (l LookNone) GoString() []byte           { return nil }
 func (l LookNone) Error() error               { return nil }
 func (l LookNone) Height() float64            { return 3 }
+
+// Distinct types that PRINT alike: types declared locally in different functions may share a name, and
+// reflect.Type.String() (or %T) gives "gen.Amount" for all three - a number, a string and a bool.  Two packages
+// that are both called "model" or "v1" give a program the same situation.  A type is what reflect.Type (or a type
+// switch) says it is, not what it is called.
+func twinNameNum(n int64) interface{} {
+	type Amount int64
+	return Amount(n)
+}
+
+func twinNameStr(s string) interface{} {
+	type Amount string
+	return Amount(s)
+}
+
+func twinNameBool(b bool) interface{} {
+	type Amount bool
+	return Amount(b)
+}
